@@ -261,6 +261,102 @@ pub fn run(ctx: &mut Ctx) {
             }
         }
     }
+    // 5b. the first operand that decides a condition decides it: what follows is not evaluated, so an
+    // operand that would raise (a comparison over an undefined name) does no harm behind it.
+    // Chains of length 2..4, every connective pattern, every truth assignment of the plain atoms, the
+    // raising atom at every position; the expectation is computed here from the grouping
+    // `or` of `and`s with left-to-right evaluation.
+    {
+        let raisers: Vec<Cond> = vec![
+            Cond::Bin(var("missing"), CmpOp::Eq, lit_i(1)),
+            Cond::Bin(path("missing", &["deep"]), CmpOp::Eq, lit_i(1)),
+            Cond::Bin(var("vnil"), CmpOp::Contains, lit_s("x")),
+        ];
+        for (ri, raiser) in raisers.iter().enumerate() {
+            // does this atom raise on its own?  (if it does not, it simply has a truth value)
+            let mut d0 = Object::new();
+            d0.insert("vnil".into(), Value::Nil);
+            let alone = render_text(&parser, &src_tmpl(&ite(raiser.clone(), true)), &d0);
+            if matches!(alone, Obs::ParseErr(_)) {
+                continue;
+            }
+            let raiser_val: Option<bool> = match &alone {
+                Obs::Ok(s) => Some(s == "T"),
+                _ => None,
+            };
+            for len in 2..=4usize {
+                for conn in 0..(1u32 << (len - 1)) {
+                    for pos in 0..len {
+                        for assign in 0..(1u32 << len) {
+                            if assign & (1 << pos) != 0 {
+                                continue; // the flag at the raiser's position is unused: one representative
+                            }
+                            let mut d = d0.clone();
+                            let mut toks = Vec::new();
+                            // atoms as Option<bool>: None = raises
+                            let mut vals: Vec<Option<bool>> = Vec::new();
+                            for i in 0..len {
+                                if i > 0 {
+                                    toks.push(if conn & (1 << (i - 1)) != 0 { FlatTok::And } else { FlatTok::Or });
+                                }
+                                if i == pos {
+                                    toks.push(FlatTok::Atom(raiser.clone()));
+                                    vals.push(raiser_val);
+                                } else {
+                                    let b = assign & (1 << i) != 0;
+                                    d.insert(format!("c{}", i).into(), Value::scalar(b));
+                                    toks.push(FlatTok::Atom(Cond::Exist(var(&format!("c{}", i)))));
+                                    vals.push(Some(b));
+                                }
+                            }
+                            // reference: groups of `and`s joined by `or`, evaluated left to right
+                            let mut want: Option<bool> = Some(false); // None = error
+                            let mut i = 0;
+                            'groups: while i < len {
+                                let mut j = i;
+                                while j + 1 < len && conn & (1 << j) != 0 {
+                                    j += 1;
+                                }
+                                // conjunction of atoms i..=j
+                                let mut g = Some(true);
+                                for k in i..=j {
+                                    match vals[k] {
+                                        None => {
+                                            g = None;
+                                            break;
+                                        }
+                                        Some(false) => {
+                                            g = Some(false);
+                                            break;
+                                        }
+                                        Some(true) => {}
+                                    }
+                                }
+                                match g {
+                                    None => {
+                                        want = None;
+                                        break 'groups;
+                                    }
+                                    Some(true) => {
+                                        want = Some(true);
+                                        break 'groups;
+                                    }
+                                    Some(false) => {}
+                                }
+                                i = j + 1;
+                            }
+                            let w = match want {
+                                Some(true) => "T",
+                                Some(false) => "F",
+                                None => "err",
+                            };
+                            case(ctx, &parser, &format!("short:{}:{}:{}:{}:want={}", ri, len, conn, pos, w), ite(Cond::Flat(toks), true), &d);
+                        }
+                    }
+                }
+            }
+        }
+    }
     // 6. random nesting: mixed binary atoms in and/or chains inside if/unless inside each other
     let n = if ctx.tier_thorough { 100_000 } else { 4_000 };
     for _ in 0..n {
